@@ -14,7 +14,13 @@ the regenerated text.  Then, every run:
      `_trigger_event`; the observed calls are compared inside Coq with the specification
      (bit 2) and with the generated functions under the hand model of _trigger_event (bit 1);
   4. translator validation: the four generated definitions are evaluated in Coq on the same
-     (well-typed and ill-typed) inputs as the real Python functions.
+     (well-typed and ill-typed) inputs as the real Python functions;
+  5. histories: SEQUENCES of registrations and events on one or two servers / clients whose
+     class-based namespaces are several INSTANCES of shared Namespace subclasses (the same class
+     registered for two or three namespaces including '*', re-registered, used on a second
+     host); for every event the observation says which object ran (its id and its own
+     `namespace` attribute).  Judged in Coq by the history model of Routing/History.v
+     (bit 1: generated lookups; bit 2: specification), theorems C13_*_history_routing.
 
 `python harness/props/c13.py --promote` switches Props/C13.v to the full-strength client
 theorems (to be used once the client cascade mirrors the server; see notes/C13.md).
@@ -426,6 +432,77 @@ def tv_cases(rng, n_weird, typed_scs):
 
 
 # --------------------------------------------------------------------------------------
+# translator validation of the generated trigger_event of the namespace base classes
+# --------------------------------------------------------------------------------------
+NS_KINDS = [('KNamespace', 'Namespace', False), ('KClientNamespace', 'ClientNamespace', False),
+            ('KAsyncNamespace', 'AsyncNamespace', True), ('KAsyncClientNamespace', 'AsyncClientNamespace', True)]
+
+
+def ns_tv_cases(rng, n):
+    """(terms, labels): the real `trigger_event` of each namespace base class, run on a real object whose
+    on_... attributes are methods of assorted arity (plain / coroutine) or plain values, versus the
+    generated definition under the oracle that answers like those methods (Check/C13HistGenCheck.v)."""
+    import socketio
+    terms, labels = [], []
+
+    def mk_method(name, arity, coro):
+        params = ', '.join('a%d' % i for i in range(arity)) if arity is not None else '*a'
+        tup = '(%s)' % ''.join('a%d, ' % i for i in range(arity)) if arity is not None else 'a'
+        src = '%sdef m(self, %s):\n    return ((Obj(self._vid), %r), %s)\n' % ('async ' if coro else '', params, name, tup)
+        env = {'Obj': Obj}
+        exec(src, env)
+        return env['m']
+
+    async def call_async(base, obj, event, args):
+        return await base.trigger_event(obj, event, *args)
+
+    for kname, cname, is_async in NS_KINDS:
+        base = getattr(socketio, cname)
+        for _ in range(n):
+            names = rng.sample(['msg', 'disconnect', 'disconnect', 'connect', 'x y', '', 'data'], rng.randrange(1, 4))
+            names = list(dict.fromkeys(names))
+            body, attrs, vid = {}, [], rng.randrange(1, 200)
+            for nm in names:
+                kind = rng.choice(['fixed', 'fixed', 'fixed', 'var', 'value'])
+                coro = is_async and rng.random() < 0.5
+                if kind == 'value':
+                    v = rng.choice([5, None, 'text', 0])
+                    body['on_' + nm] = v
+                    attrs.append('(%s, NsAttr %s None false)' % (cstr('on_' + nm), pv(v)))
+                    continue
+                arity = rng.randrange(0, 4) if kind == 'fixed' else None
+                body['on_' + nm] = mk_method('on_' + nm, arity, coro)
+                attrs.append('(%s, NsAttr (PTuple [PObj %s; PStr %s]) (Some %s) %s)' % (
+                    cstr('on_' + nm), cN(vid), cstr('on_' + nm),
+                    'None' if arity is None else '(Some %d%%nat)' % arity, 'true' if coro else 'false'))
+            obj = type('TvNamespace', (base,), body)(rng.choice(NS_POOL + ['*']))
+            obj._vid = vid
+            event = rng.choice(names) if rng.random() < 0.7 else \
+                rng.choice(['other', '', None, 0, 5, True, ('msg',), ['msg'], 'Disconnect'])
+            nargs = rng.randrange(0, 4)
+            target = body.get('on_' + event) if isinstance(event, str) else None
+            if callable(target) and target.__code__.co_argcount and rng.random() < 0.75:
+                # the arity of the method, or one more (the legacy disconnect retry drops the last argument)
+                nargs = target.__code__.co_argcount - 1 + (1 if event == 'disconnect' and rng.random() < 0.5 else 0)
+            args = tuple(rng.choice([1, 'sid', None, [1, 'a'], {'k': 2}, ('t',)]) for _ in range(nargs))
+            try:
+                if is_async:
+                    res = asyncio.run(call_async(base, obj, event, args))
+                else:
+                    res = base.trigger_event(obj, event, *args)
+                exp = '(Ok %s)' % pv(to_pv(res))
+            except Exception as e:
+                exp = '(Err %s)' % exn_name(e)
+            terms.append('(NsTV %s %s %s %s %s %s)' % (kname, pv(obj.namespace), clist(attrs), pv(to_pv(event)),
+                                                    pv(to_pv(args)), exp))
+            what = 'no method' if exp == '(Ok PNone)' else 'method ran' if exp.startswith('(Ok') else exp[5:-1]
+            if what == 'method ran' and len(res[1]) < len(args):
+                what = 'method ran after the legacy disconnect retry'
+            labels.append('%s.trigger_event %s' % (cname, what))
+    return terms, labels
+
+
+# --------------------------------------------------------------------------------------
 # full-strength client theorems
 # --------------------------------------------------------------------------------------
 PENDING = os.path.join(common.COQ, 'Routing', 'ClientFull.v.pending')
@@ -536,7 +613,8 @@ def gen_is_current():
             return False
         if not os.path.exists(vo) or os.path.getmtime(vo) < os.path.getmtime(opath):
             return False
-    return True
+    from translator import ns2coq
+    return ns2coq.is_current()
 
 
 def prove_current(chk, targets):
@@ -550,6 +628,321 @@ def prove_current(chk, targets):
     chk.broken_obligation('the generated Routing/Gen_*.v files do not match the translation of %s after three '
                           'builds (another check running concurrently with a different VERIF_REPO?)' % common.REPO)
     return False
+
+
+# --------------------------------------------------------------------------------------
+# histories: sequences of registrations and events, several instances of shared classes
+# --------------------------------------------------------------------------------------
+IMPORTS_HSPEC = 'From VT Require Import Check.C13HistCheck.'
+IMPORTS_HGEN = 'From VT Require Import Check.C13HistGenCheck.'
+
+
+def hist_scenario(variant, classes, objects, ops, hosts, key):
+    """classes: list of method-name lists; objects: list of {'id', 'cls', 'ns'} (every namespace
+    object the history ever creates); ops: ['on', host, ns, ev, hid] | ['reg', host, objid] |
+    ['ev', host, ev, ns, args]."""
+    label, side, cls, is_async, coro = variant
+    return {'kind': 'hist', 'variant': label, 'side': side, 'cls': cls, 'async': is_async, 'coroutine': coro,
+            'classes': classes, 'objects': objects, 'ops': ops, 'hosts': hosts, 'key': key}
+
+
+def hist_directed(chk, variant):
+    """One Namespace subclass instantiated for two or three namespaces (including '*') of one
+    host; every sequence of two (and, sampled in the quick tier, three) deliveries of the SAME
+    event name over the namespaces a, b and an unregistered one."""
+    rng = chk.rng
+    side = variant[1]
+    out = []
+    for shape in (('a', 'b'), ('a', '*'), ('a', 'b', '*'), ('*', 'b'), ('*', 'b', 'a')):
+        seqs = [(x, y) for x in 'abc' for y in 'abc']
+        triples = [(x, y, z) for x in 'abc' for y in 'abc' for z in 'abc']
+        seqs += triples if chk.thorough else rng.sample(triples, 6)
+        for seq in seqs:
+            a, b, c = rng.sample(NS_POOL, 3)
+            names = {'a': a, 'b': b, 'c': c, '*': '*'}
+            ev = rng.choice(EV_POOL + RESERVED[side][:1]) if rng.random() < 0.8 else rng.choice(RESERVED[side])
+            objects = [{'id': 100 + i, 'cls': 0, 'ns': names[k]} for i, k in enumerate(shape)]
+            ops = [['reg', 0, o['id']] for o in objects]
+            if rng.random() < 0.25:      # an unrelated function handler somewhere: precedence still applies
+                ops.insert(rng.randrange(len(ops) + 1), ['on', 0, rng.choice([a, b, '*']), 'unrelated-event', 1])
+            for k in seq:
+                ops.append(['ev', 0, ev, names[k], rng.choice(ARGS_POOL)])
+            out.append(hist_scenario(variant, [['on_' + ev, 'on_unrelated']], objects, ops, 1,
+                                     (variant[0], 'hist-directed', shape, seq)))
+    return out
+
+
+def hist_random(chk, variant, n):
+    """Random histories: one or two hosts, one or two namespace classes shared by all hosts, two
+    to four namespace objects per host (mostly of the same class), function handlers, late
+    registrations, re-registration of a namespace with a NEW instance, two to seven events."""
+    rng = chk.rng
+    side = variant[1]
+    out = []
+    for k in range(n):
+        hosts = 1 if rng.random() < 0.6 else 2
+        a, b, c = rng.sample(NS_POOL, 3)
+        evs = rng.sample(EV_POOL, 3)
+        if rng.random() < 0.3:
+            evs[0] = rng.choice(RESERVED[side])
+        classes = [['on_' + evs[0], 'on_' + evs[1]]]
+        if rng.random() < 0.5:
+            classes.append(rng.choice([['on_' + evs[0]], ['on_' + evs[1]], ['on_' + evs[0], 'on_' + evs[2]]]))
+        objects, ops, hid = [], [], [0]
+
+        def new_obj(ns):
+            o = {'id': 100 + len(objects), 'cls': 0 if rng.random() < 0.75 else rng.randrange(len(classes)), 'ns': ns}
+            objects.append(o)
+            return o['id']
+
+        def new_fun(h):
+            hid[0] += 1
+            return ['on', h, rng.choice([a, b, '*']), rng.choice(evs + ['*']), hid[0]]
+        for h in range(hosts):
+            keys = rng.choice([[a, b], [a, '*'], [a, b, '*'], ['*', b], [a, b, c, '*'], ['*']])
+            for ns in keys:
+                ops.append(['reg', h, new_obj(ns)])
+            for _ in range(rng.choice([0, 0, 1, 2])):
+                ops.append(new_fun(h))
+        rng.shuffle(ops)
+        for _ in range(rng.randrange(2, 8)):
+            h = rng.randrange(hosts)
+            r = rng.random()
+            if r < 0.12:
+                ops.append(['reg', h, new_obj(rng.choice([a, b, '*']))])      # new instance, maybe over an old one
+            elif r < 0.2:
+                ops.append(new_fun(h))
+            ops.append(['ev', h, rng.choice([evs[0]] * 4 + [evs[1], evs[1], evs[2]]), rng.choice([a, b, c]),
+                        rng.choice(ARGS_POOL)])
+        out.append(hist_scenario(variant, classes, objects, ops, hosts, (variant[0], 'hist-random', k)))
+    return out
+
+
+def hist_build(sc, rec):
+    """The real hosts and the (not yet registered) real namespace objects of a history."""
+    import socketio
+    cls = getattr(socketio, sc['cls'])
+    hosts = [cls() if sc['side'] == 'S' else cls(handle_sigint=False) for _ in range(sc['hosts'])]
+    coro = sc['coroutine']
+    base = {('S', False): 'Namespace', ('S', True): 'AsyncNamespace',
+            ('C', False): 'ClientNamespace', ('C', True): 'AsyncClientNamespace'}[(sc['side'], sc['async'])]
+    base = getattr(socketio, base)
+
+    def mk_method(name):
+        # the method reports the object it runs on: its tag and its own `namespace` attribute
+        if coro:
+            async def m(self, *a):
+                rec.log.append(('meth', self._vid, self.namespace, name, a))
+        else:
+            def m(self, *a):
+                rec.log.append(('meth', self._vid, self.namespace, name, a))
+        return m
+    if sc['async']:
+        async def trigger_event(self, event, *a):
+            rec.log.append(('trig', self._vid, self.namespace, event, a))
+            return await base.trigger_event(self, event, *a)     # the real on_<event> dispatch
+    else:
+        def trigger_event(self, event, *a):
+            rec.log.append(('trig', self._vid, self.namespace, event, a))
+            return base.trigger_event(self, event, *a)           # the real on_<event> dispatch
+    nsclasses = []
+    for i, methods in enumerate(sc['classes']):
+        body = {name: mk_method(name) for name in methods}
+        body['trigger_event'] = trigger_event
+        nsclasses.append(type('RecNamespace%d' % i, (base,), body))
+    objs = {}
+    for o in sc['objects']:
+        obj = nsclasses[o['cls']](o['ns'])
+        obj._vid = o['id']
+        objs[o['id']] = obj
+    return hosts, objs
+
+
+def hist_fun(rec, hid, coro):
+    if coro:
+        async def h(*a):
+            rec.log.append(('fun', hid, a))
+            return 'ret'
+    else:
+        def h(*a):
+            rec.log.append(('fun', hid, a))
+            return 'ret'
+    h._vid = hid
+    return h
+
+
+def kobs_term(log, exc):
+    if exc is not None:
+        return '(Some (Err %s))' % exn_name(exc)
+    items = []
+    for e in log:
+        if e[0] == 'fun':
+            items.append('(FunRan %s %s, None)' % (cN(e[1]), clist([pv(to_pv(a)) for a in e[2]])))
+        else:
+            ctor = 'NsTriggered' if e[0] == 'trig' else 'MethodRan'
+            items.append('(%s %s %s %s, Some %s)' % (ctor, cN(e[1]), cstr(e[3]), clist([pv(to_pv(a)) for a in e[4]]),
+                                                     cstr(e[2])))
+    return '(Some (Ok %s))' % clist(items)
+
+
+def hist_case_term(sc, hosts, per_op):
+    ot = clist(['(%s, NsObj %s %s)' % (cN(o['id']), cstr(o['ns'] or '/'),
+                                       clist([cstr(m) for m in sc['classes'][o['cls']]])) for o in sc['objects']])
+    ops = []
+    for op, obs in zip(sc['ops'], per_op):
+        if op[0] == 'on':
+            t = 'HOn %d%%nat %s %s %s' % (op[1], cstr(op[2]), cstr(op[3]), cN(op[4]))
+        elif op[0] == 'reg':
+            t = 'HRegister %d%%nat %s' % (op[1], cN(op[2]))
+        else:
+            t = 'HEvent %d%%nat %s %s %s' % (op[1], cstr(op[2]), cstr(op[3]), clist([pv(a) for a in op[4]]))
+        ops.append('(%s, %s)' % (t, obs))
+    final = clist(['(%s, %s)' % reg_terms(h) for h in hosts])
+    return '(HCase %s %s %s %s %s)' % ('SServer' if sc['side'] == 'S' else 'SClient',
+                                       'true' if sc['async'] else 'false', ot, clist(ops), final)
+
+
+def run_histories(scs):
+    """Execute every history on real hosts; returns for each (case term, summary, per-event logs)."""
+    out = [None] * len(scs)
+
+    def start(sc):
+        rec = Recorder()
+        hosts, objs = hist_build(sc, rec)
+        return rec, hosts, objs, [], []
+
+    def registration(sc, op, rec, hosts, objs):
+        if op[0] == 'on':
+            hosts[op[1]].on(op[3], hist_fun(rec, op[4], sc['coroutine']), namespace=op[2])
+        else:
+            hosts[op[1]].register_namespace(objs[op[2]])
+
+    def finish(i, sc, hosts, per_op, logs):
+        ran = set()
+        for lg in logs:
+            ran.add('raised' if lg[1] else 'dropped' if not lg[0] else 'function' if lg[0][0][0] == 'fun' else 'class')
+        out[i] = (hist_case_term(sc, hosts, per_op), '+'.join(sorted(ran)),
+                  [[list(map(repr, e)) for e in lg[0]] + ([repr(lg[1])] if lg[1] else []) for lg in logs])
+
+    async def run_async(items):
+        for i, sc in items:
+            rec, hosts, objs, per_op, logs = start(sc)
+            for op in sc['ops']:
+                if op[0] != 'ev':
+                    registration(sc, op, rec, hosts, objs)
+                    per_op.append('None')
+                    continue
+                rec.log, exc = [], None
+                try:
+                    await hosts[op[1]]._trigger_event(op[2], op[3], *op[4])
+                except Exception as e:
+                    exc = e
+                per_op.append(kobs_term(rec.log, exc))
+                logs.append((rec.log, exc))
+            finish(i, sc, hosts, per_op, logs)
+
+    for i, sc in enumerate(scs):
+        if sc['async']:
+            continue
+        rec, hosts, objs, per_op, logs = start(sc)
+        for op in sc['ops']:
+            if op[0] != 'ev':
+                registration(sc, op, rec, hosts, objs)
+                per_op.append('None')
+                continue
+            rec.log, exc = [], None
+            try:
+                hosts[op[1]]._trigger_event(op[2], op[3], *op[4])
+            except Exception as e:
+                exc = e
+            per_op.append(kobs_term(rec.log, exc))
+            logs.append((rec.log, exc))
+        finish(i, sc, hosts, per_op, logs)
+    items = [(i, sc) for i, sc in enumerate(scs) if sc['async']]
+    if items:
+        asyncio.run(run_async(items))
+    return out
+
+
+def hist_decode(c):
+    """code of eval_h*_classified -> (verdict bits, classification)."""
+    return c & 3, {'other_instance': bool(c & 4), 'level': (c // 8) % 8, 'observed': OBSERVED[(c // 64) % 4],
+                   'same_target': bool(c & 256), 'after_earlier_events': bool(c & 512), 'op_index': c // 1024}
+
+
+def eval_hcases(chk, name, terms, gen_ok, what):
+    imports, fn = (IMPORTS_HGEN, 'eval_hfull_classified') if gen_ok else (IMPORTS_HSPEC, 'eval_hspec_classified')
+    codes, errors = coqio.eval_cases(name, imports, '', 'hcase', terms, fn, shard=shard_for(len(terms)))
+    for e in errors:
+        chk.broken_obligation('%s failed: %s' % (what, e))
+    return {i: hist_decode(c) for i, c in codes.items()}
+
+
+def hist_isolated(sc, op_index):
+    """The failing event alone: same registrations (fresh hosts, fresh classes), no earlier event."""
+    ops = [op for op in sc['ops'][:op_index] if op[0] != 'ev'] + [sc['ops'][op_index]]
+    iso = dict(sc)
+    iso['ops'] = ops
+    return iso
+
+
+def hist_signature(sc, code, c, history_dependent):
+    side = 'client' if sc['side'] == 'C' else 'server'
+    if c['other_instance']:
+        what = 'method-ran-on-another-instance-of-the-namespace-class'
+    elif c['same_target']:
+        what = 'right-target-wrong-arguments-or-method'
+    else:
+        what = 'instead-' + c['observed'].replace(' ', '-')
+    return '%s-history-level%d-%s' % (side, c['level'], what) + \
+        ('-only-after-earlier-events' if history_dependent else '') + ('-model-differs' if code & 1 else '')
+
+
+def report_histories(chk, scs, results, codes, gen_ok):
+    """Nonzero codes -> violations / broken obligations.  For a violating event the same event is
+    delivered alone (same registrations, nothing before it) and judged in Coq again: when that
+    passes, the violation depends on the events delivered earlier (state outside the registries)."""
+    bad = [i for i in sorted(codes) if codes[i][0] & 2]
+    iso_ok = {}
+    if bad:
+        isos = [hist_isolated(scs[i], codes[i][1]['op_index']) for i in bad]
+        res = run_histories(isos)
+        iso_codes = eval_hcases(chk, 'c13hiso', [r[0] for r in res], gen_ok, 'evaluation of isolated events')
+        iso_ok = {i: not (iso_codes.get(j, (0, None))[0] & 2) for j, i in enumerate(bad)}
+    n_viol = 0
+    for i in sorted(codes):
+        (code, c), sc = codes[i], scs[i]
+        if code & 2:
+            n_viol += 1
+            op = sc['ops'][c['op_index']]
+            sig = hist_signature(sc, code, c, c['after_earlier_events'] and iso_ok.get(i, False))
+            nev = len([o for o in sc['ops'][:c['op_index']] if o[0] == 'ev'])
+            what = ('%s: history of %d operations on %d host(s), namespace objects %s: event %r on namespace %r '
+                    '(operation %d, after %d earlier event(s)) must go to %s, but %s; observed for the events: %s'
+                    % (sc['variant'], len(sc['ops']), sc['hosts'],
+                       [(o['id'], 'class%d' % o['cls'], o['ns']) for o in sc['objects']], op[2], op[3],
+                       c['op_index'], nev, LEVELS[c['level']],
+                       'the on_<event> method of ANOTHER instance of the namespace class ran' if c['other_instance']
+                       else 'it ran with other arguments / another method' if c['same_target'] else c['observed'],
+                       results[i][2]))
+            chk.violation(sig, what[:1500], {'scenario': sc, 'observed': results[i][2], 'failing_op': c['op_index'],
+                                             'expected_level': LEVELS[c['level']],
+                                             'same_event_alone_passes': iso_ok.get(i)})
+        elif code & 1:
+            chk.broken_obligation('correspondence (histories): the history model over the generated lookups disagrees '
+                                  'with the real %s (observations or final registries) on %r' % (sc['cls'], sc))
+            chk.violation('c13-history-model-differs-from-%s' % sc['cls'],
+                          'history model and implementation disagree; the implementation itself follows the '
+                          'specification on this history', {'scenario': sc, 'observed': results[i][2]}, no_input=True)
+    return n_viol
+
+
+def enumerate_histories(chk):
+    scs = []
+    for variant in VARIANTS:
+        scs.extend(hist_directed(chk, variant))
+        scs.extend(hist_random(chk, variant, 400 if chk.thorough else 120))
+    return scs
 
 
 # --------------------------------------------------------------------------------------
@@ -586,14 +979,23 @@ def run(chk):
                 'has unrelated handlers or not} x {Server, AsyncServer, Client, AsyncClient} x {sync, coroutine '
                 'handlers (asyncio classes)} x {namespace class defines on_<event> or not}, with namespace / event '
                 'names and argument lists drawn from pools; every configuration is a distinct case; only the '
-                'empty registry counts as trivial')
+                'empty registry counts as trivial.  Histories: per class variant, one Namespace subclass '
+                'instantiated for {a,b}, {a,*}, {a,b,*}, {*,b}, {*,b,a} x every sequence of two (sampled: three) '
+                'deliveries of one event name over a, b and an unregistered namespace, plus random histories '
+                '(one or two hosts sharing one or two namespace classes, re-registration with a new instance, '
+                'function handlers, two to seven events); every event observation names the object that ran')
     chk.trusted_base = [
         'Coq 8.16.1 kernel + vm_compute (case evaluation, refutation witness)',
         'harness/translator/py2coq.py (fail-closed ast->Gallina translator, validated every run against the '
         'real functions on well-typed and ill-typed inputs) and coq/Routing/PyRuntime.v (dynamic semantics of '
         'in / [] / is None / and / or / not / tuple display)',
         'coq/Routing/ResolveSpec.v: the documented six-level order transcribed from docs/server.rst, docs/client.rst',
-        'coq/Routing/Trigger.v: hand model of _trigger_event and Namespace.trigger_event (tied by the exhaustive run)',
+        'coq/Routing/Trigger.v: hand model of _trigger_event (tied by the exhaustive run); coq/Routing/History.v: hand '
+        'model of on() / register_namespace() as dictionary assignments (tied by the final registries of every history)',
+        'harness/translator/ns2coq.py (fail-closed translation of the trigger_event methods of the four namespace base '
+        'classes; calls of application code go through an oracle parameter, await is transparent; validated every run '
+        'against the real methods) and coq/Routing/PyRuntimeNs.v (+, hasattr / getattr, slices, try / except)',
+        'coq/Routing/NsDispatch.v: model of a namespace object (its namespace attribute and bound methods)',
         'harness/props/c13.py (scenario enumeration, recording handlers) and the Python->Gallina printer vt/coqio.py']
     chk.assumptions = [
         'registries are well-formed: handlers maps namespaces to dicts of event -> callable, namespace_handlers maps '
@@ -601,12 +1003,19 @@ def run(chk):
         'registries, all event / namespace strings, all argument lists)',
         'the TypeError retry for legacy one-argument disconnect handlers and the value returned by _trigger_event '
         'are outside the model']
-    proved = prove_current(chk, ['Check/C13GenCheck.v', 'Check/C13Check.v'])
+    proved = prove_current(chk, ['Check/C13GenCheck.v', 'Check/C13Check.v', 'Check/C13HistGenCheck.v',
+                                 'Check/C13HistCheck.v'])
     gen_ok = all(os.path.exists(os.path.join(common.COQ, 'Check', f)) for f in ('C13GenCheck.vo',)) and \
         all(os.path.exists(os.path.join(common.COQ, 'Routing', f)) for f in ('Gen_base_server.vo', 'Gen_base_client.vo'))
     imports, evalfn = (IMPORTS_GEN, 'eval_full') if gen_ok else (IMPORTS_SPEC, 'eval_spec')
     if not gen_ok:
         chk.broken_obligation('generated functions unavailable: cases are evaluated against the specification only')
+    hgen_ok = gen_ok and os.path.exists(os.path.join(common.COQ, 'Check', 'C13HistGenCheck.vo')) and \
+        all(os.path.exists(os.path.join(common.COQ, 'Routing', f))
+            for f in ('Gen_namespace.vo', 'Gen_async_namespace.vo'))
+    if gen_ok and not hgen_ok:
+        chk.broken_obligation('generated trigger_event of the namespace classes unavailable (translation or build '
+                              'failed): history cases are evaluated against the specification only')
 
     # 1. full-strength client theorems
     client_full = try_client_full(chk) if gen_ok else False
@@ -659,6 +1068,22 @@ def run(chk):
     n_bad = report(chk, scs, results, codes, gen_ok)
     chk.extra['configurations_violating_C13_on_real_classes'] = n_bad
 
+    # 5. histories: sequences of events over several instances of shared namespace classes
+    hscs = enumerate_histories(chk)
+    hres = run_histories(hscs)
+    hcodes = eval_hcases(chk, 'c13h', [r[0] for r in hres], hgen_ok, 'evaluation of history cases')
+    n_events = 0
+    for i, sc in enumerate(hscs):
+        nev = len([o for o in sc['ops'] if o[0] == 'ev'])
+        n_events += nev
+        chk.count(nev, sc['key'], {'variant': sc['variant'], 'classes': sc['classes'], 'objects': sc['objects'],
+                                   'ops': sc['ops'], 'ran': hres[i][2]} if i % 499 == 7 else None)
+        chk.dist('%s history (%s, %d host): %s' % (sc['variant'], sc['key'][1], sc['hosts'], hres[i][1]))
+    chk.traces_validated += len(hscs)
+    chk.extra['history_cases'] = len(hscs)
+    chk.extra['history_events'] = n_events
+    chk.extra['histories_violating_C13_on_real_classes'] = report_histories(chk, hscs, hres, hcodes, hgen_ok)
+
     # 4. translator validation
     if gen_ok:
         typed = [s for i, s in enumerate(scs) if not s['async'] and (chk.thorough or i % 3 == 0)]
@@ -675,9 +1100,45 @@ def run(chk):
         for i in sorted(codes)[:5]:
             chk.broken_obligation('translator validation: generated definition and real Python function disagree '
                                   'on %s: %s' % (labels[i], terms[i][:600]))
+        if hgen_ok:
+            terms, labels = ns_tv_cases(chk.rng, 400 if chk.thorough else 120)
+            codes, errors = coqio.eval_cases('c13nstv', IMPORTS_HGEN, '', 'nstv', terms, 'eval_nstv',
+                                             shard=shard_for(len(terms)))
+            for e in errors:
+                chk.broken_obligation('translator validation (namespace trigger_event) could not be evaluated: ' + e)
+            for lab in labels:
+                chk.dist('translator validation: ' + lab)
+            chk.evaluations += len(terms)
+            chk.traces_validated += len(terms)
+            chk.extra['translator_validation_cases_trigger_event'] = len(terms)
+            for i in sorted(codes)[:5]:
+                chk.broken_obligation('translator validation: generated trigger_event and the real method disagree '
+                                      'on %s: %s' % (labels[i], terms[i][:600]))
         if not gen_is_current():
             chk.broken_obligation('the generated Routing/Gen_*.v files were changed while the check was running '
                                   '(concurrent run with a different VERIF_REPO?): results are not consistent, re-run')
+
+
+def replay_history(sc, gen_ok):
+    res = run_histories([sc])[0]
+    print('history: %r' % sc)
+    print('observed for the events on the real %s: %r' % (sc['cls'], res[2]))
+    imports, fn = (IMPORTS_HGEN, 'eval_hfull') if gen_ok else (IMPORTS_HSPEC, 'eval_hspec')
+    names = [fn, 'spec_hobs  (what the documented rules prescribe, per operation)',
+             'what the real class did, per operation']
+    terms = ['%s %s' % (fn, res[0]), 'spec_hobs %s' % res[0], 'map snd (hc_ops %s)' % res[0]]
+    if gen_ok:
+        names.append('model (generated lookups under the hand model of _trigger_event): observations, final registries')
+        terms.append('model_hrun %s' % res[0])
+    rc, out = coqio.eval_print('c13_replay', imports, '', terms)
+    print('values printed below, in order: ' + '; '.join(names))
+    print(out)
+    first = out.split('\n')[0] if out else ''
+    bad = rc != 0 or '= 0' not in first
+    print('C13 clause "every event of the sequence ran exactly the prescribed target (function, or the namespace '
+          'object registered under the prescribed key and its own on_<event>) with the prescribed arguments": %s'
+          % ('VIOLATED' if bad else 'holds'))
+    return 1 if bad else 0
 
 
 def replay(chk, data):
@@ -685,10 +1146,13 @@ def replay(chk, data):
     if not sc:
         print('nothing to replay (no scenario stored): %r' % data.get('what'))
         return 1
-    from translator import py2coq
-    for m in py2coq.regenerate():
+    from translator import py2coq, ns2coq
+    for m in py2coq.regenerate() + ns2coq.regenerate():
         print(m)
-    ok, out = coqio.build(['Check/C13GenCheck.v', 'Check/C13Check.v'])
+    ok, out = coqio.build(['Check/C13GenCheck.v', 'Check/C13Check.v', 'Check/C13HistGenCheck.v',
+                           'Check/C13HistCheck.v'])
+    if sc.get('kind') == 'hist':
+        return replay_history(sc, ok and os.path.exists(os.path.join(common.COQ, 'Check', 'C13HistGenCheck.vo')))
     res = run_scenarios([sc])[0]
     print('scenario: %r' % sc)
     print('observed on the real %s: %r' % (sc['cls'], res[2]))
